@@ -41,7 +41,8 @@ def floors(ctx):
     q = ctx.tier == "quick"
     f = {"evaluations": 300 if q else 3000, "fresh_interpreter_cases": 30 if q else 300, "same_process_cases": 200,
          "deep_graph_cases": 2, "cases_with_warm_cache": 30, "cases_with_container_attrs": 50,
-         "cases_with_nested_universes": 10, "copy_mutation_checks": 100}
+         "cases_with_nested_universes": 10, "copy_mutation_checks": 100,
+         "cases_with_big_attrs": 20}
     for p in range(6):
         f[f"proto{p}"] = 10
     for l in ("pickle", "dill"):
@@ -69,6 +70,15 @@ def decorate(rng, objs, mode):
             v.weight = rng.choice([0, -1, 2.5, 10 ** 20, float("inf")])
         if rng.random() < 0.3:
             v.data = [1, 2.5, None, "s", [3, (4, 5)], {"k": [6]}]
+    if mode == "big":
+        # size thresholds of the pickle framing layer (64 KiB) and of small-int / short-string fast paths
+        vs[0].text = "x" * 65536
+        vs[-1].blob = bytes(range(256)) * 300
+        vs[0].short = "y" * 255
+        vs[-1].barr = bytearray(b"z" * 70000)
+        vs[0].nums = [255, 256, 257, 65535, 65536, 2 ** 31, 2 ** 63, -(2 ** 63) - 1]
+        if len(vs) > 1:
+            vs[1].text2 = "w" * 70001 + "\u00e9"
     if mode in ("containers", "shared"):
         for v in vs:
             if rng.random() < 0.4:
@@ -324,7 +334,7 @@ def run(ctx):
     batch = FreshBatch()
     descs = []
     # deterministic scenarios (every shard runs a slice)
-    fixed = [{"source": "nested", "attrs": a} for a in ("none", "containers", "shared")]
+    fixed = [{"source": "nested", "attrs": a} for a in ("none", "containers", "shared", "big")]
     fixed += [{"source": "tuple_cycle", "linked": l, "attrs": "none"} for l in (False, True)]
     fixed += [{"source": "chain", "n": n, "closed": c, "attrs": "none"} for n in (5, 50) for c in (False, True)]
     fixed += [{"source": "dense", "n": 12, "p": 0.5, "attrs": "containers", "dseed": 3}]
@@ -343,6 +353,8 @@ def run(ctx):
                         ctx.count("cases_with_nested_universes")
                     if desc["attrs"] != "none":
                         ctx.count("cases_with_container_attrs")
+                    if desc["attrs"] == "big":
+                        ctx.count("cases_with_big_attrs")
                     root = pick_root(rng, objs, ["vertex", "universe", "link", "list", "dict", "everything"][k % 6])
                     run_case(ctx, rng, cfg, dict(desc, root=k % 6), root, objs, batch)
     # deep graphs under a low recursion limit
@@ -363,13 +375,15 @@ def run(ctx):
             desc = {"source": "history", "seed": rng.randrange(10 ** 9), "nops": rng.randint(10, 60), "nv": rng.randint(3, 5)}
         else:
             desc = {"source": "spec", "spec": graphs.rand_spec(rng, nmax=8, mmax=16, uni_mode="rand")}
-        desc["attrs"] = rng.choice(["none", "prims", "containers", "shared"])
+        desc["attrs"] = rng.choice(["none", "prims", "containers", "shared", "shared", "big"] if i % 9 else ["big"])
         desc["dseed"] = rng.randrange(10 ** 6)
         objs = build_from_desc(desc)
         if not any(isinstance(o, Vertex) for o in objs):
             continue
         if desc["attrs"] in ("containers", "shared"):
             ctx.count("cases_with_container_attrs")
+        if desc["attrs"] == "big":
+            ctx.count("cases_with_big_attrs")
         kind = rng.choice(["vertex", "universe", "link", "list", "dict", "everything"])
         desc["rootkind"] = kind
         desc["rseed"] = rng.randrange(10 ** 6)
